@@ -112,9 +112,6 @@ Record fxt_row := {
   fr_amount : Qc; fr_acct : account
 }.
 
-Record tracker := { tk_adj : option fxt_row; tk_txs : list btx }.
-Definition tracker_new : tracker := {| tk_adj := None; tk_txs := [] |}.
-
 (* FxTracker::fx_tx *)
 Definition fx_tx (cur : text) (td : date3) (tdt : text) (amount : Qc) (reg : bool)
            (row : N) (acct : account) (rate : option Qc) : N + btx :=
@@ -126,58 +123,57 @@ Definition fx_tx (cur : text) (td : date3) (tdt : text) (amount : Qc) (reg : boo
            b_tb := Some (if buy then 1 else 2) |}
   else inl QErr.fx_currency_unsupported.
 
+(* The tracker holds the pending first row of a conversion (adjacent_fxt) and
+   the generated transactions; the latter are only ever appended to, so the
+   functions below return the transactions they add. *)
+
 Section Tracker.
   Variable A : arith.
 
-  (* add_fxt_row: the new tracker and the error of the row, if any.  The
-     pending row is consumed even when the pair is rejected. *)
-  Definition add_fxt_row (tk : tracker) (fr : fxt_row) : res (tracker * option N) :=
-    match tk_adj tk with
-    | None => Ok ({| tk_adj := Some fr; tk_txs := tk_txs tk |}, None)
+  (* add_fxt_row: new pending row, transactions added, error of the row.
+     The pending row is consumed even when the pair is rejected. *)
+  Definition add_fxt_row (adj : option fxt_row) (fr : fxt_row)
+    : res (option fxt_row * list btx * option N) :=
+    match adj with
+    | None => Ok (Some fr, [], None)
     | Some adj =>
-        let tk0 := {| tk_adj := None; tk_txs := tk_txs tk |} in
         let '(cad, other) := if text_eqb (fr_cur adj) t_CAD then (adj, fr) else (fr, adj) in
         if negb (text_eqb (fr_cur cad) t_CAD) || text_eqb (fr_cur other) t_CAD then
-          Ok (tk0, Some QErr.fxt_not_one_cad)
+          Ok (None, [], Some QErr.fxt_not_one_cad)
         else if negb (date_eqb (fr_td other) (fr_td cad)) then
-          Ok (tk0, Some QErr.fxt_dates_differ)
+          Ok (None, [], Some QErr.fxt_dates_differ)
         else if negb (Bool.eqb (fr_reg other) (fr_reg cad))
                 || negb (account_eqb (fr_acct other) (fr_acct cad)) then
-          Ok (tk0, Some QErr.fxt_accounts_differ)
+          Ok (None, [], Some QErr.fxt_accounts_differ)
         else
           prod <- a_mul A (fr_amount cad) (fr_amount other) ;;
           if Qcltb 0 prod then
-            Ok (tk0, Some (if Qcltb 0 (fr_amount cad) then QErr.fxt_both_positive
-                           else QErr.fxt_both_negative))
+            Ok (None, [], Some (if Qcltb 0 (fr_amount cad) then QErr.fxt_both_positive
+                                else QErr.fxt_both_negative))
           else
             q <- a_div A (fr_amount cad) (fr_amount other) ;;
             match fx_tx (fr_cur other) (fr_td other) (fr_tdt other) (fr_amount other)
                         (fr_reg other) (fr_row fr) (fr_acct other) (Some (Qcabs q)) with
-            | inl e => Ok (tk0, Some e)
-            | inr t => Ok ({| tk_adj := None; tk_txs := tk_txs tk ++ [t] |}, None)
+            | inl e => Ok (None, [], Some e)
+            | inr t => Ok (None, [t], None)
             end
     end.
 
   (* add_implicit_fxt: called for every trade whose currency is not CAD *)
-  Definition add_implicit_fxt (tk : tracker) (t : btx) : res (tracker * option N) :=
+  Definition add_implicit_fxt (t : btx) : res (list btx * option N) :=
     gross <- a_mul A (b_price t) (b_shares t) ;;
     let signed := if b_buy t then (- gross)%Qc else gross in
     amount <- a_sub A signed (b_comm t) ;;
-    if Qceqb amount 0 then Ok (tk, None)
+    if Qceqb amount 0 then Ok ([], None)
     else match fx_tx (b_cur t) (b_td t) (b_tdt t) amount (b_reg t) (b_row t) (b_acct t) None with
-         | inl e => Ok (tk, Some e)
-         | inr x => Ok ({| tk_adj := tk_adj tk; tk_txs := tk_txs tk ++ [x] |}, None)
+         | inl e => Ok ([], Some e)
+         | inr x => Ok ([x], None)
          end.
 End Tracker.
 
-(* add_income_fx_tx *)
-Definition add_income (tk : tracker) (t : btx) : tracker :=
-  {| tk_adj := tk_adj tk; tk_txs := tk_txs tk ++ [t] |}.
-
-(* get_fx_txs: the generated transactions and the "Unpaired FXT" error *)
-Definition get_fx_txs (tk : tracker) : list btx * option (N * N) :=
-  (tk_txs tk,
-   match tk_adj tk with
-   | Some adj => Some (fr_row adj, QErr.unpaired_fxt)
-   | None => None
-   end).
+(* get_fx_txs: the "Unpaired FXT" error *)
+Definition unpaired_error (adj : option fxt_row) : list (N * N) :=
+  match adj with
+  | Some a => [(fr_row a, QErr.unpaired_fxt)]
+  | None => []
+  end.
